@@ -420,7 +420,7 @@ def generate(rng, tier):
             cases.append(c)
             if i % 4 == 0 or i % 10 == 3:
                 cases.append(_pipeline_case(c))
-            if i % 6 == 1 or i % 20 == 3:
+            if i % 60 == 1 or i % 200 == 3:       # each such registry costs one fresh interpreter (see _genlookup)
                 cases += _genlookup_cases(rng, c)
     # lookups against the shipped indices
     for kind, bits in (('iab', 36), ('oui', 24)):
@@ -594,7 +594,7 @@ class _Resources(object):
         return self.real.open_binary(package, name)
 
 
-def _genlookup(kind, data, key):
+def _genlookup_here(kind, data, key):
     """index `data` with netaddr's parser, load the index with load_index, make that index and text the
     registry of `kind` for the duration of one OUI(key) / IAB(key) call, and restore everything"""
     import netaddr.eui as E
@@ -632,6 +632,49 @@ def _genlookup(kind, data, key):
         live.clear()
         live.update(saved)
     return ';'.join('%d/%d/%s' % (r['offset'], r['size'], _show_parsed(r['org'], list(r['address']))) for r in recs)
+
+
+
+_GENWORKER = {'key': None, 'proc': None}
+
+_GENWORKER_SRC = r"""
+import sys, json
+sys.path.insert(0, sys.argv[1])          # harness
+import common                            # puts the netaddr under test on sys.path
+from props import c19
+kind, data = sys.argv[2], bytes.fromhex(sys.argv[3])
+for line in sys.stdin:
+    key = int(line)
+    print(json.dumps(c19._genlookup_here(kind, data, key)), flush=True)
+"""
+
+
+def _genlookup(kind, data, key):
+    """OUI(key) / IAB(key) reading a generated registry.  The registry of a process is package data and does not
+    change while the process lives (a record cache may rely on that: `refactors/twin-7`), so every generated
+    registry gets an interpreter of its own in which it is the registry from the start to the end; all the
+    lookups into one registry share that interpreter"""
+    import subprocess
+    import sys as _sys
+    import json as _json
+    w = _GENWORKER
+    if w['key'] != (kind, data) or w['proc'] is None or w['proc'].poll() is not None:
+        if w['proc'] is not None:
+            try:
+                w['proc'].stdin.close()
+                w['proc'].wait(timeout=5)
+            except Exception:
+                w['proc'].kill()
+        here = os.path.dirname(os.path.dirname(os.path.abspath(__file__)))
+        w['proc'] = subprocess.Popen([_sys.executable, '-c', _GENWORKER_SRC, here, kind, data.hex()],
+                                     stdin=subprocess.PIPE, stdout=subprocess.PIPE, universal_newlines=True, env=os.environ.copy())
+        w['key'] = (kind, data)
+    w['proc'].stdin.write('%d\n' % key)
+    w['proc'].stdin.flush()
+    line = w['proc'].stdout.readline()
+    if not line:
+        return '!harness:genlookup worker died'
+    return _json.loads(line)
 
 
 def _show_parsed(org, addr):
